@@ -23,7 +23,7 @@ def run_one(ctx, binary, seed, mode):
 
 def run(ctx):
     binary = vlib.go_build("genesis", ctx)
-    n = 6 if ctx.tier == "quick" else 60
+    n = 6 if ctx.tier == "quick" else 24
     seeds = [ctx.seed * 1000 + k for k in range(n)]
     pairs, sums = [], []
     with cf.ThreadPoolExecutor(max_workers=8) as ex:
